@@ -125,6 +125,16 @@ func init() {
 		return nil
 	})
 	libWritesHeap["sort.Strings"] = false
+	// rand.Intn(n): some index below n
+	for _, full := range []string{"math/rand.Intn", "math/rand/v2.IntN"} {
+		reg(full, func(ex *Exec, p *Path, _ *Value, a []Value, call *ast.CallExpr) []Value {
+			ex.c.Trust("math/rand.Intn(n) returns a value in [0, n) (n > 0)")
+			r := Value{ex.c.Fresh("rand", "Int"), types.Typ[types.Int]}
+			p.Assume("(and (>= " + r.T + " 0) (< " + r.T + " " + a[0].T + "))")
+			return []Value{r}
+		})
+		libWritesHeap[full] = false
+	}
 	// proto.Bool / proto.String / proto.Int32 ...: a fresh cell holding the argument
 	for _, n := range []string{"Bool", "String", "Int32", "Int64", "Uint32", "Uint64", "Float32", "Float64"} {
 		full := "google.golang.org/protobuf/proto." + n
